@@ -297,6 +297,12 @@ fn position_in_range(start: (u32, u32), end: (u32, u32), target: LineChar) -> bo
     true
 }
 
+/// Verification hook: exposes the private conversion to out-of-tree proof harnesses.
+#[cfg(kani)]
+pub fn verif_get_index_of_line_char(source: &str, line_char: LineChar) -> u32 {
+    get_index_of_line_char(source, line_char)
+}
+
 fn get_index_of_line_char(source: &str, line_char: LineChar) -> u32 {
     let mut remaining_line_breaks = line_char.line;
     for (index, char) in source.chars().enumerate() {
